@@ -167,6 +167,17 @@ def run(ctx):
                                    "input": f"featcorpus --features {','.join([f] + extra)}  vs  all features", "observed": missing[:3]})
             if not mini:
                 violations.append({"what": f"feature `{f}` alone exposes nothing of its quantity", "input": f, "observed": "empty corpus output"})
+        # std on/off must not change results either
+        for f in (["temperature"] + ([] if quick else QF[:4])):
+            nostd, out = corpus([f] + [x for x in extra if x != "std"])
+            if nostd is None:
+                violations.append({"what": f"the operation corpus for feature `{f}` does not build without std", "input": f, "observed": out[-300:]})
+                continue
+            corpus_cmp += len(nostd)
+            missing = [l for l in nostd if l not in fullset]
+            if missing:
+                violations.append({"what": "enabling `std` changed the result of an operation that was already available without it",
+                                   "input": f"featcorpus --features {','.join([f] + [x for x in extra if x != 'std'])}  vs  all features with std", "observed": missing[:3]})
     return {"evaluations": n_lattice + len(cfgs) + corpus_cmp, "distinct_nontrivial": len(cfgs) + len(singles) * 2,
             "rule": "lattice: every (requested feature, compiled module, named module) triple re-derived in python from Cargo.toml / lib.rs / module files; "
                     "cargo check --lib --no-default-features per configuration (quick: none, each of the 14, all x {f64, decimal} with std/serde alternating = 32; thorough: all 16 x 8 = 128); "
